@@ -68,6 +68,10 @@ func (c *ScriptedCheck) Name() string           { return "scripted_check" }
 func (c *ScriptedCheck) InstanceName() string   { return c.Label }
 func (c *ScriptedCheck) SimLabel() string       { return c.Label }
 
+// Log records a call observed by code outside this package (a world that
+// wraps a real check implementation around scripted verdicts).
+func (c *ScriptedCheck) Log(call CheckCall) { c.log(call) }
+
 func (c *ScriptedCheck) log(call CheckCall) {
 	c.mu.Lock()
 	if s := simrt.Cur(); s != nil {
